@@ -96,6 +96,14 @@ func (vc *VC) call(c *ssa.CallCommon, res *ssa.Call, pos token.Pos) SVal {
 			}
 			names = append(names, n)
 		}
+		if key == "sort.Search" && len(c.Args) == 2 {
+			// the exact exit state of the binary search when f is a function literal (inline.go);
+			// otherwise the assumed contract (0 <= result <= n)
+			if r, ok := vc.sortSearch(c, pos); ok {
+				vc.nCalls++
+				return r
+			}
+		}
 		if con == nil {
 			if r, ok := vc.intrinsic(f, args, rt, pos); ok {
 				return r
